@@ -318,6 +318,9 @@ func (st *State) applyContract(f *Frame, ins ssa.Instruction, c *Contract, calle
 	if c.Trusted {
 		st.res.Assumed[c.Pkg+"."+c.Name] = true
 	}
+	if c.UncheckedPanics {
+		st.res.Assumed["callee "+c.Pkg+"."+c.Name+" is assumed not to panic (unchecked_panics: its contract is about the runs that complete)"] = true
+	}
 	// `at <callee> assert ...` clauses of the function under proof: over its own locals, here
 	atName := name
 	if top := st.frames[0]; f == top && top.contract != nil && len(top.contract.AtAsserts[name]) == 0 && len(top.contract.AtAsserts[c.Name]) > 0 {
